@@ -206,6 +206,13 @@ Fixpoint run (fixed : bool) (s : st) (ops : list op) : st * list obs_t :=
               let '(s2, rs) := run fixed s1 t in (s2, (r, snap s1) :: rs)
   end.
 
+(* a write-through call that holds a reservation succeeds on the memory path iff the stream has
+   exactly the reserved length and the blob is not cached yet *)
+Definition present (name : N) (y : sys) : bool :=
+  match findE name (c_ents (s_c y)) with Some _ => true | None => false end.
+Definition wt_succeeds (y : sys) (name sz : N) (w : wres) : bool :=
+  match w with WData len => N.eqb len sz && negb (present name y) | WErr => false end.
+
 (* ---------- comparison of observations (sets, since Go map order is arbitrary) ---------- *)
 Definition memN (x : N) (l : list N) : bool := existsb (N.eqb x) l.
 Definition set_eqN (a b : list N) : bool :=
@@ -451,3 +458,7 @@ Fixpoint ghost (g : list touch) (i : N) (hist : list lop) : list touch :=
   | o :: t => ghost (tstep g i o) (i + 1) t
   end.
 Definition last_touch (hist : list lop) (k : N) : option (Z * N) := lookT k (ghost [] 0 hist).
+
+(* o adds/refreshes or removes k *)
+Definition undoes (k : N) (o : lop) : bool :=
+  match o with LAdd k' _ => N.eqb k' k | LDelete k' => N.eqb k' k | LClear => true | _ => false end.
